@@ -75,6 +75,11 @@ Restrictions ==
   R("kenamond.kenamond2.Kenamond2", "D1", ">=", <<1, 1>>),      \* documented "D2 < D1"; the repository's own tests use D1 = D2 as a valid problem, so the boundary is admitted
   R("kenamond.kenamond2.Kenamond2", "D2", ">", <<0, 1>>),
   R("kenamond.kenamond2.Kenamond2", "D2", "<=", <<2, 1>>),      \* D2 <= D1 (default D1 = 2), see above
+  \* ordering of the detonation times (defaults R=3, D1=2, D2=1, detonators at +-10, +-5, times [2,1,0,1,2]):
+  \* t_di >= t_d3 + R (1/D1 + 1/D2) - |a_di| / D2   for i = 1, 2, 4, 5
+  R("kenamond.kenamond2.Kenamond2", "t_d[2]", "<=", <<3, 2>>),      \* t_d3 <= min_i (t_di - 9/2 + |a_i|) = 1 - 9/2 + 5
+  R("kenamond.kenamond2.Kenamond2", "t_d[1]", ">=", <<-1, 2>>),     \* t_d2 >= 0 + 9/2 - 5
+  R("kenamond.kenamond2.Kenamond2", "t_d[4]", ">=", <<-11, 2>>),    \* t_d5 >= 0 + 9/2 - 10
   R("kenamond.kenamond3.Kenamond3", "R", ">", <<0, 1>>),
   R("kenamond.kenamond3.Kenamond3", "R", "<", <<5, 1>>),        \* detonator (0,5) outside the inert region
   R("kenamond.kenamond3.Kenamond3", "D", ">", <<0, 1>>),
